@@ -47,6 +47,47 @@ Lemma fixed_witness :
             (snd (run wit_cfg init (wit_ops ++ [ClearPeer 0; Tick 6; GetFailed]))) = true.
 Proof. vm_compute. auto. Qed.
 
+(* ---- the policies plugged into the manager: whatever requestQuota and validRequest are in
+   the current state, what either policy returns is accepted by ReservePieces' bookkeeping *)
+Lemma reserve_default_accepted c s p origin cands dup rnd k :
+  NoDup cands -> quota c s p origin = Z.of_nat k ->
+  legal c s p origin cands dup (default_select k (fun i => valid c s p i dup) cands rnd) = true.
+Proof. intros ND Q. unfold legal. rewrite Q. now apply default_policy_legal. Qed.
+
+Lemma reserve_rarest_accepted c s p origin cands dup order k :
+  NoDup order -> (forall x, In x order -> In x cands) -> quota c s p origin = Z.of_nat k ->
+  legal c s p origin cands dup (rarest_select k (fun i => valid c s p i dup) order) = true.
+Proof. intros ND Hc Q. unfold legal. rewrite Q. now apply rarest_policy_legal. Qed.
+
+(* ---- what the oracle's comparison means *)
+Definition out_equiv (a b : out) : Prop :=
+  match a, b with
+  | OUnit, OUnit => True
+  | ORes x, ORes y => x = y
+  | OFailed x, OFailed y => Permutation x y
+  | OPending x, OPending y => Permutation x y
+  | _, _ => False
+  end.
+
+Lemma out_eqb_equiv a b : out_eqb a b = true <-> out_equiv a b.
+Proof.
+  destruct a, b; cbn; try (split; [discriminate|contradiction]); try tauto.
+  - destruct legal, legal0; cbn; split; congruence.
+  - split; [apply mset3_eqb_sound|apply mset3_eqb_perm].
+  - split; [apply msetN_eqb_sound|apply msetN_eqb_perm].
+Qed.
+
+Lemma outs_eqb_equiv a b : outs_eqb a b = true <-> Forall2 out_equiv a b.
+Proof.
+  revert b. induction a as [|x a IH]; intros [|y b]; cbn.
+  - split; auto.
+  - split; [discriminate|intros H; inversion H].
+  - split; [discriminate|intros H; inversion H].
+  - rewrite andb_true_iff, out_eqb_equiv, IH. split.
+    + intros [H1 H2]. now constructor.
+    + intros H. inversion H; subst. auto.
+Qed.
+
 (* ---- non-vacuity witnesses for the hypotheses of the theorems *)
 Definition nv_ops : list op :=
   [Reserve 0 false [0; 1; 2; 3] false [0; 1]; Reserve 1 true [0; 1; 2; 3] false [2; 3];
